@@ -64,9 +64,10 @@ PARAM_ASSUME = ["parameters are written by the harness in the documented syntax:
 
 
 def param_ob(prop, prefixes, must):
+    q, t = (2, 3) if prop == "C11" else (1, 2)  # the round trip (C10) goes through the symbolic quoting of model.Params: smaller bounds
     return {"name": prop + ".params", "pkg": "./internal/persistence/model", "replay": "R1", "label_prefixes": prefixes, "must_assert": must,
-            "quick": {"entry": "VerifHarness_C11_paramsL2", "flags": PARAM_FLAGS, "sample_paths": 2, "timeout_s": 1500, "bounds": {"parameters": 1, "value_len": "0..2"}},
-            "thorough": {"entry": "VerifHarness_C11_paramsL3", "flags": PARAM_FLAGS, "sample_paths": 2, "timeout_s": 7200, "bounds": {"parameters": 1, "value_len": "0..3"}}}
+            "quick": {"entry": "VerifHarness_%s_paramsL%d" % (prop, q), "flags": PARAM_FLAGS, "sample_paths": 2, "timeout_s": 1500, "bounds": {"parameters": 1, "value_len": "0..%d" % q}},
+            "thorough": {"entry": "VerifHarness_%s_paramsL%d" % (prop, t), "flags": PARAM_FLAGS, "sample_paths": 2, "timeout_s": 7200, "bounds": {"parameters": 1, "value_len": "0..%d" % t}}}
 
 
 C12_FLAGS = ["-unwind", "64", "-concrete-clock", "-solver", "cvc5", "-fallback", "z3", "-query-timeout-ms", "10000"]
